@@ -16,6 +16,17 @@ from sympy.polys.orderings import grevlex
 from sympy.polys.groebnertools import groebner as _groebner
 
 
+import heapq
+
+
+def _negkey(k):
+    """negated grevlex key (sum, reversed-negated exponents) so that heapq pops the largest monomial"""
+    return (-k[0], tuple(-x for x in k[1]))
+
+
+NF_EAGER = int(__import__("os").environ.get("VERIF_NF_EAGER", "12"))
+
+
 class EngineError(Exception):
     """machinery problem (never a property violation) -> exit 2"""
 
@@ -59,6 +70,7 @@ class Alg:
         self.gen_index = {n: i for i, n in enumerate(names)}
         self.relations = []      # generators of the ideal
         self._gb = None
+        self._rules = None
         self._gb_time = 0.0
         self.atoms = {}          # key -> Atom
         self.gen_atom = {}       # generator name -> (Atom, role)
@@ -70,6 +82,8 @@ class Alg:
         self.nonneg = []         # generator names known >= 0 (sqrt, abs)
         self.safe_obligations = []   # (what, poly) : poly must be != 0 / >= 0 etc.
         self.gen_desc = {}
+        self.sign = {}           # generator name -> 'pos' | 'nonneg' | 'neg' | 'nonpos'  (contract / axiom facts)
+        self.angle_ranges = []   # (poly a, kind) kind in {'first_quadrant': a in [0, pi/2), 'principal': a in (-pi, pi)}
 
     # ---- basic helpers
     def v(self, name):
@@ -100,6 +114,7 @@ class Alg:
             return
         self.relations.append(p)
         self._gb = None
+        self._rules = None
 
     def gb(self):
         if self._gb is None:
@@ -110,13 +125,60 @@ class Alg:
             else:
                 self._gb = []
             self._gb_time += time.time() - t
+            self._rules = None
         return self._gb
 
     def nf(self, p):
+        """normal form modulo the Groebner basis (term-wise rewriting with a work list;
+        sympy's PolyElement.rem rescans for the leading term at every step - quadratic)"""
         g = self.gb()
         if not g or p.is_ground:
             return p
-        return p.rem(g)
+        rules = self._rules
+        if rules is None:
+            rules = []
+            for q in g:
+                lm = q.LM
+                lc = q.LC
+                tail = [(m, c) for m, c in q.items() if m != lm]
+                rules.append((lm, lc, tail))
+            self._rules = rules
+        mdiv = self.R.monomial_div
+        mmul = self.R.monomial_mul
+        zero = self.R.domain.zero
+        # largest monomial first (heap keyed by the ring order): every contribution to a
+        # monomial comes from a larger one, so each distinct monomial is rewritten once
+        order = self.R.order
+        work = dict(p)
+        heap = [(_negkey(order(m)), m) for m in work]
+        heapq.heapify(heap)
+        result = {}
+        steps = 0
+        while heap:
+            _, m = heapq.heappop(heap)
+            c = work.pop(m, None)
+            if c is None or not c:
+                continue
+            for (lm, lc, tail) in rules:
+                q = mdiv(m, lm)
+                if q is not None:
+                    f = -c / lc
+                    for (tm, tc) in tail:
+                        mm = mmul(q, tm)
+                        if mm in work:
+                            work[mm] += f * tc
+                        else:
+                            work[mm] = f * tc
+                            heapq.heappush(heap, (_negkey(order(mm)), mm))
+                    break
+            else:
+                result[m] = c
+            steps += 1
+            if steps > 5000000:
+                raise EngineError("normal form: step limit")
+        out = self.R.zero.copy()
+        out.update(result)
+        return out
 
     def is_zero(self, p):
         return self.nf(p).is_zero
@@ -187,7 +249,24 @@ class Alg:
         # keep finer bases first so that later lookups prefer them
         self.trig_bases.insert(0, (b, S, C))
         self.trig_gens.append((sn, cn))
+        for (a, kind) in self.angle_ranges:
+            r = self._prop(b, a)
+            if r is not None and 0 < r <= 1 and kind == "first_quadrant":
+                # A-TRIG quadrant facts: 0 <= b < pi/2  ==>  sin b >= 0, cos b > 0
+                self.sign[sn] = "nonneg"
+                self.sign[cn] = "pos"
         return S, C
+
+    def angle_in(self, a, kind):
+        """contract fact about an angle expression (must be stated before the DAG is converted)"""
+        self.angle_ranges.append((self.nf(a), kind))
+
+    def _principal(self, b):
+        for (a, kind) in self.angle_ranges:
+            r = self._prop(b, a)
+            if r is not None and 0 < r <= 1:
+                return True
+        return False
 
     def sqrt(self, a):
         a = self.nf(a)
@@ -199,21 +278,22 @@ class Alg:
             if n * n == c.numerator and d * d == c.denominator:
                 return self.const(Fraction(n, d))
         if not a.is_ground:
-            # perfect square argument: sqrt(c^2 f^2) = |c f|
-            try:
-                c0, factors = a.factor_list()
-                cf = Fraction(int(c0.numerator), int(c0.denominator))
-                if cf > 0 and all(e % 2 == 0 for _, e in factors):
-                    n, d = math.isqrt(cf.numerator), math.isqrt(cf.denominator)
-                    if n * n == cf.numerator and d * d == cf.denominator:
-                        root = self.const(Fraction(n, d))
-                        for f, e in factors:
-                            root = root * f ** (e // 2)
-                        return self.abs(root)
-            except EngineError:
-                raise
-            except Exception:
-                pass
+            # perfect square argument: sqrt(c^2 f^2) = |c f|  (also after trading cos^2 <-> 1 - sin^2)
+            for av in self._alt_forms(a):
+                try:
+                    c0, factors = av.factor_list()
+                    cf = Fraction(int(c0.numerator), int(c0.denominator))
+                    if cf > 0 and all(e % 2 == 0 for _, e in factors):
+                        n, d = math.isqrt(cf.numerator), math.isqrt(cf.denominator)
+                        if n * n == cf.numerator and d * d == cf.denominator:
+                            root = self.const(Fraction(n, d))
+                            for f, e in factors:
+                                root = root * f ** (e // 2)
+                            return self.abs(root)
+                except EngineError:
+                    raise
+                except Exception:
+                    pass
         for key, atom in self.atoms.items():
             if atom.kind != "sqrt":
                 continue
@@ -229,13 +309,63 @@ class Alg:
         g = self.gen[name]
         self.add_relation(g * g - a)
         self.nonneg.append(name)
+        self.sign[name] = "nonneg"
         self.safe_obligations.append(("sqrt_arg_nonneg", a))
         return g
+
+    def sign_of(self, p):
+        """+1 / -1 if the sign facts determine the sign of p (non-strictly), else None"""
+        if p.is_ground:
+            c = self.const_value(p)
+            return 1 if c >= 0 else -1
+        names = list(self.gen.keys())
+        sgn = None
+        for mon, coef in p.items():
+            t = 1 if coef > 0 else -1
+            for i, e in enumerate(mon):
+                if e % 2 == 1:
+                    f = self.sign.get(names[i])
+                    if f in ("pos", "nonneg"):
+                        pass
+                    elif f in ("neg", "nonpos"):
+                        t = -t
+                    else:
+                        return None
+            if sgn is None:
+                sgn = t
+            elif sgn != t:
+                return None
+        return sgn
+
+    def _alt_forms(self, a):
+        """a, and a with even powers of one trig generator traded for its partner (c^2 = 1 - s^2)"""
+        yield a
+        names = list(self.gen.keys())
+        for (sn, cn) in self.trig_gens:
+            for (x, y) in ((cn, sn), (sn, cn)):
+                ix = self.gen_index[x]
+                if not any(m[ix] for m in a):
+                    continue
+                if any(m[ix] % 2 for m in a):
+                    continue
+                X, Y = self.gen[x], self.gen[y]
+                out = self.R.zero
+                for m, c in a.items():
+                    e = m[ix]
+                    m2 = list(m)
+                    m2[ix] = 0
+                    t = self.R.zero.copy()
+                    t[tuple(m2)] = c
+                    out += t * (1 - Y * Y) ** (e // 2)
+                yield out
 
     def abs(self, p):
         p = self.nf(p)
         if p.is_ground:
             return self.const(abs(self.const_value(p)))
+        sg = self.sign_of(p)
+        if sg is not None:
+            return p if sg > 0 else -p
         for key, atom in self.atoms.items():
             if atom.kind == "abs":
                 r = self._prop(p, atom.args[0])
@@ -248,6 +378,7 @@ class Alg:
         g = self.gen[name]
         self.add_relation(g * g - p * p)
         self.nonneg.append(name)
+        self.sign[name] = "nonneg"
         return g
 
     def inverse(self, d):
@@ -305,6 +436,16 @@ class Alg:
 
     def opaque(self, kind, *args):
         args = tuple(self.nf(a) for a in args)
+        if kind == "atan2":
+            # A-ATAN2: atan2(sin b, cos b) = b for b in (-pi, pi);  atan2(-sin b, cos b) = -b
+            y, x = args
+            for (b, Sb, Cb) in self.trig_bases:
+                if not self._principal(b):
+                    continue
+                if self.nf(y * Cb - x * Sb).is_zero and (self.nf(y * Sb + x * Cb) - 1).is_zero:
+                    return b
+                if self.nf(y * Cb + x * Sb).is_zero and (self.nf(x * Cb - y * Sb) - 1).is_zero:
+                    return -b
         key = (kind,) + tuple(args)
         for k, atom in self.atoms.items():
             if atom.kind == kind and atom.args == args:
@@ -362,7 +503,7 @@ class Alg:
             return a - b
         if op == "mul":
             r = a * b
-            if len(r) > 400:
+            if len(r) > NF_EAGER:
                 r = self.nf(r)
             return r
         if op == "neg":
